@@ -37,7 +37,9 @@ func JSONPBWithOpt(m protoreflect.ProtoMessage, filename string, fs afero.Fs, o 
 }
 
 // Recognise extra whitespace after a JSON key.
-var extraSpaceAfterKeyRE = regexp.MustCompile(`(?m)^(\s*"[^"]*": ) `)
+// The key is matched as a whole JSON string (escapes included) so that a string value
+// on its own line that merely contains `": ` followed by a space is left alone.
+var extraSpaceAfterKeyRE = regexp.MustCompile(`(?m)^(\s*"(?:[^"\\]|\\.)*": ) `)
 
 // FJSONPB ...
 func FJSONPB(w io.Writer, m protoreflect.ProtoMessage) error {
